@@ -105,7 +105,8 @@ Definition receive (s : dp) (r : N) (size : nat) : dp :=
 
 (* how far a removal got: nothing / index row gone / header rewritten / k body bytes zeroed.
    [index_first] = the order of the source: true when RemoveBlobs commits the index deletion before touching the pack *)
-Inductive rm_stage := RmNone | RmIndex | RmHeader | RmZero (k : nat) | RmDone.
+Inductive rm_stage := RmNone | RmIndex | RmHeader | RmZero (k : nat) | RmDone
+| RmZeroOnly (k : nat).   (* k body bytes zeroed under an intact header: only reachable if the data is destroyed before the header is rewritten *)
 
 Definition mark (pk : list item) (p : nat) (hdr : bool) (z : nat) : list item :=
   match nth_error pk p with
@@ -125,6 +126,7 @@ Definition remove_upto (index_first : bool) (s : dp) (r : N) (st : rm_stage) : d
         | RmHeader => {| pack := mark (pack s) p true 0; idx := idel r (idx s) |}
         | RmZero k => {| pack := mark (pack s) p true k; idx := idel r (idx s) |}
         | RmDone => {| pack := mark (pack s) p true size; idx := idel r (idx s) |}
+        | RmZeroOnly k => {| pack := mark (pack s) p false k; idx := idel r (idx s) |}
         end
       else
         match st with
@@ -132,6 +134,7 @@ Definition remove_upto (index_first : bool) (s : dp) (r : N) (st : rm_stage) : d
         | RmHeader => {| pack := mark (pack s) p true 0; idx := idx s |}
         | RmZero k => {| pack := mark (pack s) p true k; idx := idx s |}
         | RmDone => {| pack := mark (pack s) p true size; idx := idel r (idx s) |}
+        | RmZeroOnly k => {| pack := mark (pack s) p false k; idx := idx s |}
         end
   end.
 
